@@ -300,8 +300,15 @@ def user_engine_runs(M, rec, rng, g, n_nets):
         kw = drive.step_pars(pars)
         _, vals = g.values(desc, allow_inf=False)
         kind = ("numpy", "numpy", "SX", "MX")[it % 4]
-        eng = UserNP() if kind == "numpy" else UserCS(kind)
-        how = rng.choice(("explicit", "selected"))
+        # an engine object may well be falsy (one that counts what it created and has created nothing yet)
+        falsy = (None, "__len__", "__bool__")[(it // 4) % 3]
+        cls_ = UserNP if kind == "numpy" else UserCS
+        if falsy == "__len__":
+            cls_ = type("Counting" + cls_.__name__, (cls_,), {"__len__": lambda self: 0})
+        elif falsy == "__bool__":
+            cls_ = type("Quiet" + cls_.__name__, (cls_,), {"__bool__": lambda self: False})
+        eng = cls_() if kind == "numpy" else cls_(kind)
+        how = rng.choice(("explicit", "selected")) if falsy is None else ("explicit", "explicit", "selected")[(it // 12) % 3]
         E.use(eng if how == "selected" else rng.choice((EN.Engine(), EC.Engine("SX"))))
         try:
             if kind == "numpy":
@@ -325,7 +332,7 @@ def user_engine_runs(M, rec, rng, g, n_nets):
         except (R.Singular, R.Inadmissible):
             continue
         rec.count("user_engine_runs")
-        rec.seen("user_engine_modes", (kind, how))
+        rec.seen("user_engine_modes", (kind, how, "falsy" if falsy else "truthy"))
         for eid, d in ref.next.items():
             for nm, v in d.items():
                 vs = v if isinstance(v, list) else [v]
